@@ -61,6 +61,9 @@ func (p *Proof) IsValid(public Public) bool {
 	if p == nil {
 		return false
 	}
+	if p.Commitment == nil || p.Bx == nil || p.E == nil || p.S == nil || p.Z1 == nil || p.Z2 == nil {
+		return false
+	}
 	if !arith.IsValidNatModN(public.Verifier.N(), p.W) {
 		return false
 	}
